@@ -7,7 +7,7 @@ PROPERTY = 'C03'
 LEVEL = 'exploration'
 RULE = ('session S = connect, shell (2 WRTE), stat, list (2 entries), pull (2 DATA records cut inside a sync header), push, '
         'run through AdbDevice and AdbDeviceAsync; (a) every placement of <=k read-fragment deviations {1 byte, n-1, half, empty} '
-        'over all bulk_read calls, (b) global fragmentation policies, (c) every single-bit corruption of every inbound payload byte '
+        'over all bulk_read calls, (b) global fragmentation policies, (c) every single-bit corruption of every inbound payload byte (also of the packets of a second, suspended stream that another call reads and parks) '
         'and of the data_check field, (d) unknown command words at every inbound packet, also as a lone header that announces a payload which never follows; oracle = results and host packet log equal '
         'to the unfragmented run, never a request past the current packet, InvalidChecksumError / InvalidCommandError from the call '
         'that read the bad packet; non-trivial = at least one deviation or mutation applied; distinct = distinct (scenario, choice list)')
@@ -24,12 +24,22 @@ def timed(op, tkw):
     return op + (dict(tkw),)
 
 
-def run_session(twin, cfg, ch, frag, stop_on_exc=False, eps=0.0, tkw=None):
+FOREIGN_OPS = [('connect',), ('gen-start', 'other', {'decode': False}), ('shell', 'cmd1', {'decode': False}), ('stat', '/f'), ('gen-rest', 0)]
+
+
+def foreign_cfg():
+    cfg = scen.std_cfg()
+    cfg['shell'] = dict(cfg['shell'])
+    cfg['shell'][b'shell:other'] = [b'OTHER-1', b'OTHER-2\xff', b'OTHER-3']
+    return cfg
+
+
+def run_session(twin, cfg, ch, frag, stop_on_exc=False, eps=0.0, tkw=None, ops=None):
     s = Session(ch, cfg, twin=twin, frag=frag, eps=eps)
     res = []
     frames_at = []
     try:
-        for op in scen.std_ops():
+        for op in (ops or scen.std_ops()):
             op = timed(op, tkw)
             res.append(s.op(op))
             frames_at.append(s.env.frames_seen)
@@ -45,12 +55,13 @@ def run_session(twin, cfg, ch, frag, stop_on_exc=False, eps=0.0, tkw=None):
         s.finish()
 
 
-def reference(twin):
-    if twin not in _REF:
+def reference(twin, foreign=False):
+    key = (twin, foreign)
+    if key not in _REF:
         from ..chooser import FixedChooser
-        _REF[twin] = run_session(twin, scen.std_cfg(), FixedChooser(), False)
-        assert all(r[0] == 'ok' for r in _REF[twin]['res']), _REF[twin]['res']
-    return _REF[twin]
+        _REF[key] = run_session(twin, foreign_cfg() if foreign else scen.std_cfg(), FixedChooser(), False, ops=FOREIGN_OPS if foreign else None)
+        assert all(r[0] == 'ok' for r in _REF[key]['res']), _REF[key]['res']
+    return _REF[key]
 
 
 def common_viol(o):
@@ -95,12 +106,13 @@ def owner_of(ref, frame):
 
 def run_mut(params, ch):
     twin = params['twin']
-    cfg = scen.std_cfg()
+    foreign = bool(params.get('foreign'))
+    cfg = foreign_cfg() if foreign else scen.std_cfg()
     cfg['wire_mut'] = params['mut']
     if params.get('version'):
         cfg['version'] = params['version']
-    ref = reference(twin)
-    o = run_session(twin, cfg, ch, frag=False, stop_on_exc=True)
+    ref = reference(twin, foreign)
+    o = run_session(twin, cfg, ch, frag=False, stop_on_exc=True, ops=FOREIGN_OPS if foreign else None)
     viol = []     # after a bad packet the byte stream is desynchronised by definition: only the API outcome is judged
     own = owner_of(ref, params['mut']['frame'])
     want = 'InvalidChecksumError' if params['mut']['kind'] == 'bit' else 'InvalidCommandError'
@@ -162,6 +174,19 @@ def parts(tier):
     out.append(Part('corrupt-newer-device', [{'twin': t, 'mut': m, 'version': 0x01000001} for t in tw for m in vmuts], run_mut,
                     what='the same bit flips against a device that announces protocol version 0x01000001 in its CNXN (the host announced 0x01000000, so checksums still apply)',
                     bound='%d flips (every 7th of the full set)' % len(vmuts)))
+    # a second live stream: its packets are read (and parked) by whichever call is reading -- a corrupted one must still never reach its owner
+    fref = reference('sync', True)
+    fm = []
+    for k, p in enumerate(fref['devlog']):
+        if p.data and k >= fref['frames_at'][1]:
+            for off in range(len(p.data)):
+                for bit in ((0, 7) if off else range(8)):
+                    fm.append({'frame': k, 'kind': 'bit', 'off': 24 + off, 'bit': bit})
+            for bit in range(32):
+                fm.append({'frame': k, 'kind': 'bit', 'off': 16 + bit // 8, 'bit': bit % 8})
+    out.append(Part('corrupt-beside-a-live-stream', [{'twin': t, 'mut': m, 'foreign': True} for t in twins for m in fm], run_mut, {'dev-order': -1},      # wire order fixed (oldest packet first): mutations are addressed by wire index
+                    what='bit flips in every packet that arrives while a suspended streaming_shell and another call share the connection (packets of the stream that is not reading included)',
+                    bound='%d flips x 2 twins' % len(fm)))
     out.append(Part('corrupt', [{'twin': t, 'mut': m} for t in tw for m in muts], run_mut,
                     what='every single-bit flip of every inbound payload byte and of data_check, one per execution', bound='%d flips' % len(muts)))
     out.append(Part('unknown-cmd', [{'twin': t, 'mut': m} for t in tw for m in cmds], run_mut,
